@@ -213,6 +213,17 @@ func (vc *FuncVC) genOnce() {
 			vc.errorf("%s:%d: no call %s#%d in %s (inlined, renamed or removed): the assertion anchored there cannot be checked", ca.C.File, ca.C.Line, ca.Callee, ca.N, vc.key)
 		}
 	}
+	// a counter calls("<name>") that no call of this function advances would make its clauses vacuous or unprovable by accident
+	var mcs []string
+	for nm := range vc.mentionedCalls {
+		mcs = append(mcs, nm)
+	}
+	sort.Strings(mcs)
+	for _, nm := range mcs {
+		if !vc.countedCalls[nm] && !strings.Contains(vc.key, nm) {
+			vc.errorf("%s: calls(%q) is mentioned but %s has no direct call of a function of that name (inlined, renamed or removed)", vc.key, nm, vc.key)
+		}
+	}
 	// ensures at every return: one obligation per clause, conjoined over the returns
 	rn := resultNames(fn)
 	ensGoals := make([][]string, len(spec.Ensures))
@@ -401,7 +412,7 @@ func (f *Frame) frameObligations(spec *FuncSpec, entry, final *State, reach stri
 		if nv == ov {
 			continue
 		}
-		if k == "ghost:dyncalls" {
+		if strings.HasPrefix(k, "ghost:") {
 			continue // a ghost counter, not program state
 		}
 		if k == "alloc" {
